@@ -270,13 +270,36 @@ def h_aux_solver_rdm(env, key, solver):
     from tangelo.algorithms.classical import FCISolver, CCSDSolver
     from harness.c04 import AUX_MOLS, _XYZ
     spec = AUX_MOLS[key]
+    from tangelo.algorithms.classical import MP2Solver
     with shim.concrete_mode():
         m = SecondQuantizedMolecule(_XYZ[spec["xyz"]], q=spec["q"], spin=spec["spin"], basis="sto-3g", frozen_orbitals=spec["frozen"], uhf=spec["uhf"])
-        s = (FCISolver if solver == "fci" else CCSDSolver)(m)
+        s = {"fci": FCISolver, "ccsd": CCSDSolver, "mp2": MP2Solver}[solver](m)
         e = float(s.simulate())
+        if solver == "mp2":
+            s.get_mp2_amplitudes()      # a query in between must not disturb the density matrices
         r1, r2 = s.get_rdm()
         e2 = float(m.energy_from_rdms(r1, r2))
+        r1b, r2b = s.get_rdm()
+        e2b = float(m.energy_from_rdms(r1b, r2b))
+        e3 = e4 = None
+        if not spec["uhf"] and spec["frozen"] is None and solver != "mp2":
+            # the same solver object used again after the molecule's orbitals were rotated (occupied-virtual mixing): the new
+            # density matrices belong to the new orbitals
+            C = np.array(m.mo_coeff, dtype=float).copy()
+            i, j = 0, C.shape[1] - 1
+            ci, cj = C[:, i].copy(), C[:, j].copy()
+            C[:, i], C[:, j] = np.cos(0.3) * ci + np.sin(0.3) * cj, -np.sin(0.3) * ci + np.cos(0.3) * cj
+            m.mo_coeff = C
+            if solver == "fci":
+                e3 = float(s.simulate())
+                q1, q2 = s.get_rdm()
+                e4 = float(m.energy_from_rdms(q1, q2))
     env.check_true(abs(e - e2) < 1e-6, f"{solver}: energy_from_rdms(get_rdm()) == solver energy [{key}]", detail=f"{e2} vs {e}")
+    env.check_true(abs(e2b - e2) < 1e-9, f"{solver}: a second get_rdm() gives the same matrices [{key}]", detail=f"{e2b} vs {e2}")
+    if e3 is not None:
+        env.check_true(abs(e3 - e) < 1e-6, f"{solver}: energy unchanged by an orbital rotation without frozen orbitals [{key}]", detail=f"{e3} vs {e}")
+        env.check_true(abs(e4 - e3) < 1e-6, f"{solver}: after simulate() in rotated orbitals, get_rdm() reproduces the energy with the new integrals [{key}]",
+                       detail=f"{e4} vs {e3}")
     if not spec["uhf"]:
         r1 = np.asarray(r1)
         r2 = np.asarray(r2)
@@ -284,7 +307,8 @@ def h_aux_solver_rdm(env, key, solver):
         env.check_true(abs(np.trace(r1) - ne) < 1e-6, f"{solver}: trace of the 1-RDM == active electrons [{key}]", detail=str(np.trace(r1)))
         env.check_true(float(np.abs(r1 - r1.T.conj()).max()) < 1e-8, f"{solver}: 1-RDM Hermitian [{key}]")
         tr2 = float(np.einsum("iijj->", r2).real)
-        env.check_true(abs(tr2 - ne * (ne - 1)) < 1e-6, f"{solver}: sum_ij G[iijj] == N(N-1) [{key}]", detail=str(tr2))
+        # (the MP2 2-RDM of PySCF is a perturbative, not N-representable density: its pair trace is N(N-1) only to second order)
+        env.check_true(solver == "mp2" or abs(tr2 - ne * (ne - 1)) < 1e-6, f"{solver}: sum_ij G[iijj] == N(N-1) [{key}]", detail=str(tr2))
 
 
 def shapes(tier, seed):
@@ -314,9 +338,11 @@ def shapes(tier, seed):
     for key in AUX_MOLS:
         if AUX_MOLS[key].get("basis"):
             continue            # non-minimal-basis entries are for the Hamiltonian checks of C04 only
-        for sv in ("fci", "ccsd"):
+        for sv in ("fci", "ccsd", "mp2"):
             if AUX_MOLS[key]["uhf"] and sv == "fci":
                 continue
+            if sv == "mp2" and (AUX_MOLS[key]["uhf"] or AUX_MOLS[key]["frozen"] is not None or AUX_MOLS[key]["spin"]):
+                continue            # MP2 density matrices: closed shell, no frozen orbitals (the solver refuses the others)
             out.append(Shape(f"aux/solver_rdm/{sv}/{key}", h_aux_solver_rdm, dict(key=key, solver=sv), modules=()))
     pads = [(3, 4, [0]), (4, 4, [0, 3]), (3, 2, [2]), (4, 6, [0, 1])]
     if tier == "thorough":
